@@ -334,7 +334,10 @@ class Content(utils.Formattable, metaclass=abc.ABCMeta):
 
   def save(self, file: str, **kwargs):
     """Save content to a file."""
-    pg_io.mkdirs(os.path.dirname(file), exist_ok=True)
+    # NOTE: a bare file name has no directory part.
+    dirname = os.path.dirname(file)
+    if dirname:
+      pg_io.mkdirs(dirname, exist_ok=True)
     pg_io.writefile(file, self.to_str(**kwargs))
 
   def __add__(self, other: WritableTypes) -> 'Content':
